@@ -52,6 +52,7 @@ Section Patterns.
     | c0 :: _ =>
       if negb (nodupb motors) then None                        (* overlapping keys *)
       else if negb (forallb (fun c => length c =? length c0) cols) then None   (* unequal lengths *)
+      else if (1 <? length cols) && (length c0 =? 0) then None   (* cycler + on an empty cycler: StopIteration *)
       else Some (map (fun t => combine motors (map (fun c => nth t c (o_zero ops)) cols))
                      (seq 0 (length c0)))
     end.
@@ -110,6 +111,8 @@ Section Patterns.
 
   Definition snake_values (motors : list nat) (cols : list (list F)) (flags : list bool) : option cyc :=
     if negb (nodupb motors) then None                               (* overlapping keys in + or * *)
+    else if (1 <? length cols) && existsb (fun c => length c =? 0) cols
+    then None                                     (* composing an empty cycler with + or * : StopIteration *)
     else match snake_cyclers (map (@length F) cols) flags with
          | None => None
          | Some grid => Some (map (lookup_point motors cols) grid)
